@@ -157,27 +157,31 @@ where
                 //   v = w / u  =>  [wmin / umax .. wmax / umin]
                 //
                 // The constraint is not dropped until all variables converge into numbers.
+                let corners = [
+                    umin.saturating_mul(vmin),
+                    umin.saturating_mul(vmax),
+                    umax.saturating_mul(vmin),
+                    umax.saturating_mul(vmax),
+                ];
+                let wlow = *corners.iter().min().unwrap();
+                let whigh = *corners.iter().max().unwrap();
+                // The quotient bounds are valid only for non-negative operands; otherwise
+                // the operand domains are left as they are.
+                let nonneg = umin >= 0 && vmin >= 0 && wmin >= 0;
+                let (ulow, uhigh, vlow, vhigh) = if nonneg {
+                    (
+                        wmin.checked_div(vmax).unwrap_or(umin),
+                        wmax.checked_div(vmin).unwrap_or(umax),
+                        wmin.checked_div(umax).unwrap_or(vmin),
+                        wmax.checked_div(umin).unwrap_or(vmax),
+                    )
+                } else {
+                    (umin, umax, vmin, vmax)
+                };
                 Ok(state
-                    .process_domain(
-                        &wwalk,
-                        Rc::new(FiniteDomain::from(
-                            umin.saturating_mul(vmin)..=umax.saturating_mul(vmax),
-                        )),
-                    )?
-                    .process_domain(
-                        &uwalk,
-                        Rc::new(FiniteDomain::from(
-                            wmin.checked_div(vmax).unwrap_or(umin)
-                                ..=wmax.checked_div(vmin).unwrap_or(umax),
-                        )),
-                    )?
-                    .process_domain(
-                        &vwalk,
-                        Rc::new(FiniteDomain::from(
-                            wmin.checked_div(umax).unwrap_or(vmin)
-                                ..=wmax.checked_div(umin).unwrap_or(vmax),
-                        )),
-                    )?
+                    .process_domain(&wwalk, Rc::new(FiniteDomain::from(wlow..=whigh)))?
+                    .process_domain(&uwalk, Rc::new(FiniteDomain::from(ulow..=uhigh)))?
+                    .process_domain(&vwalk, Rc::new(FiniteDomain::from(vlow..=vhigh)))?
                     .with_constraint_or_rerun(self, &walked)?)
             }
             // If all operators do not yet have domains, then keep the constraint until it can
